@@ -176,13 +176,16 @@ void elem_mixed_one(const Plan& pl, const Z& n, Sink& s) {
   if constexpr (Tr::assign_any || std::is_same_v<T, unsigned int>) { E a; a = v; s.rn("val", "operator=(Integer)", n, ty, elem_val(a)); }
   { E a(x); a += v; s.rn("add_int", "operator+=(E,Integer)", n, ty, elem_val(a)); }
   { E a = x + v; s.rn("add_int", "operator+(E,Integer)", n, ty, elem_val(a)); }
-  { T a = v + x; s.rn("add_int", "operator+(Integer,E)", n, ty, toZ(a)); }
+  // Integer op E returns Integer_type: the type must be able to hold a residue
+  bool ret_ok = true;
+  if constexpr (!std::is_same_v<T, Z>) ret_ok = toZ(std::numeric_limits<T>::max()) >= pl.P - 1;
+  if (ret_ok) { T a = v + x; s.rn("add_int", "operator+(Integer,E)", n, ty, toZ(a)); }
   { E a(x); a -= v; s.rn("sub_int", "operator-=(E,Integer)", n, ty, elem_val(a)); }
   { E a = x - v; s.rn("sub_int", "operator-(E,Integer)", n, ty, elem_val(a)); }
-  { T a = v - x; s.rn("rsub_int", "operator-(Integer,E)", n, ty, toZ(a)); }
+  if (ret_ok) { T a = v - x; s.rn("rsub_int", "operator-(Integer,E)", n, ty, toZ(a)); }
   { E a(x); a *= v; s.rn("mul_int", "operator*=(E,Integer)", n, ty, elem_val(a)); }
   { E a = x * v; s.rn("mul_int", "operator*(E,Integer)", n, ty, elem_val(a)); }
-  { T a = v * x; s.rn("mul_int", "operator*(Integer,E)", n, ty, toZ(a)); }
+  if (ret_ok) { T a = v * x; s.rn("mul_int", "operator*(Integer,E)", n, ty, toZ(a)); }
   s.rnb("eq_int", "operator==(E,Integer)", n, ty, x == v);
   s.rnb("eq_int", "operator==(Integer,E)", n, ty, v == x);
   s.rnb("eq_int", "!operator!=(E,Integer)", n, ty, !(x != v));
